@@ -1,7 +1,7 @@
 (* Correspondence for C04: runs Model.StatusFlow on a complete call.
    case inputs  = (sHAS_STATUS sERR_PACKABLE FRAME PREWRITE V V V DECODE sRESULT_NONEMPTY sFIXED)
      FRAME    = the server-side frame class in the syntax of Corr/C03.v
-     PREWRITE = snone | (ssome (zCODE xMSG CAUSE))        (client preWriteCall)
+     PREWRITE = snone | (ssome (zCODE xMSG CAUSE)) | (schain VERDICT ...)   (client preWriteCall)
      V        = verdict of postReadReplyHeader, preReadReplyBody, postReadReplyBody (C03 syntax)
      DECODE   = sok | (serr sBOOL)   decoding a non-empty reply body into the caller's result
                 | (sraw sHAS_STATUS STATUS sHAS_BODY V V V DECODE sFIXED)
@@ -37,7 +37,7 @@ Definition run (inp : val) : option val :=
   match inp with
   | VL [tag; hs; st; hb; v1; v2; v3; de; fx] =>
       if sym_eqb tag "raw" then
-        match dec_bool hs, dec_ostatus st, dec_bool hb, dec_verdict v1, dec_verdict v2, dec_verdict v3 with
+        match dec_bool hs, dec_ostatus st, dec_bool hb, dec_stage_entry v1, dec_stage_entry v2, dec_stage_entry v3 with
         | Some hs', Some st', Some hb', Some a, Some b, Some c =>
             match dec_decode de, dec_bool fx with
             | Some de', Some fx' =>
@@ -51,10 +51,19 @@ Definition run (inp : val) : option val :=
         end
       else None
   | VL [hs; ep; fr; pw; v1; v2; v3; de; rn; fx] =>
-      match dec_bool hs, dec_bool ep, dec_frame fr, dec_verdict v1, dec_verdict v2, dec_verdict v3 with
+      match dec_bool hs, dec_bool ep, dec_frame fr, dec_stage_entry v1, dec_stage_entry v2, dec_stage_entry v3 with
       | Some hs', Some ep', Some (f, _), Some a, Some b, Some c =>
           let pw' := match pw with
                      | VL [t; s] => if sym_eqb t "some" then option_map Some (dec_status s) else None
+                     | VL (t :: _) =>
+                         (* the preWriteCall plugins in order *)
+                         if sym_eqb t "chain" then
+                           match dec_stage_entry pw with
+                           | Some (VStat s) => Some (Some s)
+                           | Some VNil => Some None
+                           | _ => None
+                           end
+                         else None
                      | _ => if sym_eqb pw "none" then Some None else None
                      end in
           match pw', dec_decode de, dec_bool rn, dec_bool fx with
